@@ -418,14 +418,29 @@ pub fn step_net(st: &mut NetSt, args: &[&str]) -> String {
             }
             None => "bad-op".into(),
         },
-        ["close", call] => match s.calls.get_mut(*call) {
+        ["close", call] | ["closewr", call] => match s.calls.get_mut(*call) {
             Some(c) => {
                 let _g = s.rt.enter();
                 let _ = call_state(c);
-                c.reader = None;
-                c.writer = None;
-                c.whole = None;
-                drop(_g);
+                if args[0] == "closewr" {
+                    // the application lets go of the write half FIRST, the read half a little later
+                    if let Some(ws) = c.whole.take() {
+                        let (r, w) = ws.split();
+                        c.reader = Some(r);
+                        c.writer = Some(w);
+                    }
+                    c.writer = None;
+                    drop(_g);
+                    settle(&s.rt, 20);
+                    let _g = s.rt.enter();
+                    c.reader = None;
+                    drop(_g);
+                } else {
+                    c.reader = None;
+                    c.writer = None;
+                    c.whole = None;
+                    drop(_g);
+                }
                 settle(&s.rt, 20);
                 "ok".into()
             }
